@@ -1,6 +1,7 @@
 """C19 — peer message framing is faithful under fragmentation and enforces size limits
-(spec/Codec.tla, spec/Handshake.tla; harness crate h_codec)."""
-import json, os, re, threading
+(spec/Codec.tla, spec/CodecConn.tla, spec/CodecHandover.tla, spec/CodecPeer.tla, spec/Handshake.tla;
+harness crate h_codec)."""
+import json, os, re, threading, time
 import vlib
 from vlib import Report, ToolError, log
 
@@ -8,7 +9,11 @@ PID = "C19"
 ENGINES = ["codec"]
 
 # constants of the TLC configs (spec/mc/MC_Codec*.cfg); the build must agree
-MODEL_CONSTS = {"HDR": 11, "BH": 257, "BHMAX": 310, "MaxBlockSize": 7788}
+MODEL_CONSTS = {"HDR": 11, "BH": 257, "BHMAX": 310, "MaxBlockSize": 7788, "header_sizes": [257, 258, 259], "net": "other"}
+# the other two networks (spec/mc/MC_Codec_net_*.cfg): NetName and MaxBlockSize of that chain type
+NETS = {"main": ("mainnet", {"HDR": 11, "MaxBlockSize": 1348032, "net": "main", "magic_model": [97, 61]}),
+        "test": ("testnet", {"HDR": 11, "MaxBlockSize": 1348032, "net": "test", "magic_model": [83, 59]})}
+PEER_ACTIONS = ["Handshake", "RemoteWrites", "NodeReads", "NodeSends", "WriterStep", "RemoteReads"]
 CODEC_ACTIONS = ["Deliver", "Silence", "ExpectAttachment", "Call", "Loop", "ReadExact", "Timeout", "Eof", "Parse"]
 HS_ACTIONS = ["Start", "Accept", "Finish", "Lose", "Reset"]
 RING_CAP = 100   # NONCES_CAP of p2p/src/handshake.rs = RingCap of spec/mc/MC_HandshakeRing_*.cfg
@@ -27,6 +32,9 @@ def codec_signature(m):
     if m["what"] == "trailing_bytes_accepted":
         # one signature per message type: a body longer than what its items need was accepted
         return "codec:trailing_bytes_accepted:%s" % TYPE_NAMES.get(m.get("t"), "t%s" % m.get("t"))
+    if m["what"] == "short_body_accepted":
+        # one signature per message type: a body shorter than the message's content was delivered
+        return "codec:short_body_accepted:%s" % TYPE_NAMES.get(m.get("t"), "t%s" % m.get("t"))
     sig = "codec:%s:%s:t%s" % (m["what"], m.get("k", "?"), m.get("t", "?"))
     if m.get("k") == "headers" and m.get("count") == 0 and m.get("items") == 0:
         sig += ":n=0"
@@ -45,6 +53,16 @@ def hs_signature(m):
     if m["what"] == "trailing_bytes_accepted":
         return "codec:trailing_bytes_accepted:%s" % ("Hand" if c["role"] == "accept" else "Shake")
     return "handshake:%s:%s:%s" % (c["role"], m["what"], c["expect"]["res"])
+
+
+def peer_signature(m):
+    """`h_codec peer` mismatch: a real Peer (handshake + conn::listen + Peer::send_*) facing a raw peer."""
+    c = m["case"]
+    rv = c.get("rv", 0)
+    vc = "v1" if rv <= 1 else ("v2" if rv == 2 else ("v3plus" if rv <= 1000 else "newer"))
+    # the version of the remote peer enters the signature where the wire form is what failed
+    sig = "peer:%s:%s" % (m["what"], m.get("name", "?"))
+    return sig + (":remote_" + vc if m["what"] in ("content", "garbled", "version", "closed") else "")
 
 
 def handover_signature(c, m):
@@ -113,6 +131,22 @@ def emit(cfg, tag, what):
     return [json.loads(x) for x in e.printed(tag)]
 
 
+def peer_run(wd, cases, name, corrupt=False):
+    pp = os.path.join(wd, name + ".ndjson"); po = os.path.join(wd, name + "_out.ndjson")
+    vlib.write_ndjson(pp, cases)
+    st, _ = run_harness(["codec", "peer", "--cases", pp, "--out", po] + (["--corrupt"] if corrupt else []), "peer")
+    return st, (vlib.read_ndjson(po) if st is not None else [])
+
+
+def net_consts(chain, want):
+    p = vlib.harness(["codec", "consts", "--chain", chain])
+    got = json.loads(p.stdout.strip().splitlines()[-1])
+    for k, v in want.items():
+        if got.get(k) != v:
+            raise ToolError("wire constant %s on %s: build has %s, the configuration of Codec.tla assumes %s" % (k, chain, got.get(k), v))
+    return got
+
+
 def replay_codec(rep, wd, cases, thorough, extra=None, name="cases"):
     cp = os.path.join(wd, name + ".ndjson")
     outp = os.path.join(wd, name + "_out.ndjson")
@@ -132,7 +166,15 @@ def replay_codec(rep, wd, cases, thorough, extra=None, name="cases"):
     return stats, vlib.read_ndjson(outp)
 
 
+T0 = [0.0]
+
+
+def lap(what):
+    log("  [%6.1fs] %s" % (time.time() - T0[0], what))
+
+
 def run(tier, replay):
+    T0[0] = time.time()
     rep = Report(PID, tier, "model_checking")
     wd = vlib.workdir(PID, clean=True)
     thorough = tier == "thorough"
@@ -147,8 +189,14 @@ def run(tier, replay):
             for m in vlib.read_ndjson(outp)[:1]:
                 m.pop("case", None)
                 rep.violation(obj["signature"], case, json.dumps(m)[:600])
+        elif case.get("kind") == "peer":
+            st, mms = peer_run(wd, [case["case"]], "replay_peer")
+            for m in mms[:1]:
+                rep.violation(obj["signature"], case, "%s %s: %s" % (m["what"], m.get("name"), m["detail"]))
         elif case.get("kind") == "codec":
-            extra = ["--plan", json.dumps(case["plan"])] if case.get("plan") else None
+            extra = ["--plan", json.dumps(case["plan"])] if case.get("plan") else []
+            if case.get("chain"):
+                extra += ["--chain", case["chain"]]
             stats, mms = replay_codec(rep, wd, [case["case"]], False, extra, "replay")
             for m in mms:
                 rep.violation(obj["signature"], case, "%s: %s" % (m["what"], m["detail"]))
@@ -182,51 +230,90 @@ def run(tier, replay):
     for k, v in MODEL_CONSTS.items():
         if consts.get(k) != v:
             raise ToolError("wire constant %s: build has %s, Codec.tla configs assume %s" % (k, consts.get(k), v))
+    if consts.get("magic_written") != consts.get("magic_model"):
+        # the node's own writer does not put the network's magic on the wire: nothing it writes is readable
+        rep.violation("codec:magic_written:%s" % consts.get("net"), {"kind": "consts", "consts": consts},
+                      "write_message starts a frame with %s, the magic of this network is %s" % (consts.get("magic_written"), consts.get("magic_model")))
+        return rep.finish()
 
     # (M1) Codec.tla: every stream x every fragmentation at the candidate boundaries
+    # (the exhaustive run is the longest single job: it goes on beside the socket runs and is joined
+    # before the verdict; its result does not feed the case generation, which is a separate TLC run)
     cfg = "mc/MC_Codec_thorough" if thorough else "mc/MC_Codec"
-    r = vlib.tlc("mc/MC_Codec", cfg, workers=4, timeout=3000)
-    if r.invariant_violated:
-        print(r.out[-3000:])
-        raise ToolError("Codec.tla invariant %s violated inside the model" % r.invariant_violated)
-    vlib.tlc_ok(r, "MC_Codec")
-    ac = r.action_counts()
-    for a in CODEC_ACTIONS:
-        if ac.get(a, (0, 0))[1] == 0:
-            raise ToolError("Codec.tla action %s never taken (vacuous model)" % a)
-    states, trans = r.distinct, r.generated
-    # (M1p) the model tells the two placements of set_stream_timeout apart: with the timeout chosen
-    # once per read() (TimeoutPerChunk = FALSE) a silence inside a body must break NoDesync
-    rp = vlib.tlc("mc/MC_Codec", "mc/MC_Codec_probe_hoist", workers=1, coverage=False, timeout=600)
-    if "NoDesync" not in rp.invariant_violated:
-        print(rp.out[-3000:])
-        raise ToolError("Codec.tla does not distinguish the header timeout from the body timeout (probe passed)")
-    # (M2) Handshake.tla
-    rh = vlib.tlc("mc/MC_Handshake", "mc/MC_Handshake", workers=2, timeout=600)
-    if rh.invariant_violated:
-        print(rh.out[-3000:])
-        raise ToolError("Handshake.tla invariant %s violated inside the model" % rh.invariant_violated)
-    vlib.tlc_ok(rh, "MC_Handshake")
-    ach = rh.action_counts()
-    for a in HS_ACTIONS:
-        if ach.get(a, (0, 0))[1] == 0:
-            raise ToolError("Handshake.tla action %s never taken" % a)
-
-    # (M3/A3) the nonce ring at its real capacity: scripted behaviours of ONE Handshake object with
-    # more than NONCES_CAP outbound initiations.  The long script (every dial delivers its Hand,
-    # 150 ms apart) is replayed in the background while the codec socket runs are going on.
-    ring_fast, rrf = ring_case("fast")
-    ring_full, rrl = ring_case("full")
-    rfp = os.path.join(wd, "hs_ring_full.ndjson"); rfo = os.path.join(wd, "hs_ring_full_out.ndjson")
-    vlib.write_ndjson(rfp, [ring_full])
     bg = {}
 
-    def ring_bg():
+    def m1_bg():
+        try:
+            # (per-action coverage costs TLC about two thirds more time: it is collected on a subset of the
+            # streams in a second, small run - an action taken there is taken in the exhaustive run)
+            r_ = vlib.tlc("mc/MC_Codec", cfg, workers=4, coverage=False, timeout=3000)
+            if r_.invariant_violated:
+                print(r_.out[-3000:])
+                raise ToolError("Codec.tla invariant %s violated inside the model" % r_.invariant_violated)
+            vlib.tlc_ok(r_, "MC_Codec")
+            bg["m1"] = r_
+            lap("MC_Codec exhaustive run done (%d states)" % r_.distinct)
+        except BaseException as e:
+            bg["exc0"] = e
+    th0 = threading.Thread(target=m1_bg)
+    th0.start()
+
+    # the small models; the long ring script (every dial delivers its Hand, 150 ms apart) is replayed as
+    # soon as TLC has walked it
+    def small_bg():
+        try:
+            rcov = vlib.tlc("mc/MC_Codec", "mc/MC_Codec_cov", workers=2, timeout=1200)
+            if rcov.invariant_violated:
+                print(rcov.out[-3000:])
+                raise ToolError("Codec.tla invariant %s violated inside the model" % rcov.invariant_violated)
+            vlib.tlc_ok(rcov, "MC_Codec_cov")
+            ac_ = rcov.action_counts()
+            for a in CODEC_ACTIONS:
+                if ac_.get(a, (0, 0))[1] == 0:
+                    raise ToolError("Codec.tla action %s never taken (vacuous model)" % a)
+            # (M3/A3) the nonce ring at its real capacity: scripted behaviours of ONE Handshake object with
+            # more than NONCES_CAP outbound initiations
+            ring_full, rrl = ring_case("full")
+            rfp = os.path.join(wd, "hs_ring_full.ndjson"); rfo = os.path.join(wd, "hs_ring_full_out.ndjson")
+            vlib.write_ndjson(rfp, [ring_full])
+            bg["ring_full"] = (ring_full, rrl, rfo)
+            th_r = threading.Thread(target=ring_bg, args=(rfp, rfo))
+            th_r.start()
+            # (M1p) the model tells the two placements of set_stream_timeout apart: with the timeout chosen
+            # once per read() (TimeoutPerChunk = FALSE) a silence inside a body must break NoDesync
+            rp = vlib.tlc("mc/MC_Codec", "mc/MC_Codec_probe_hoist", workers=1, coverage=False, timeout=600)
+            if "NoDesync" not in rp.invariant_violated:
+                print(rp.out[-3000:])
+                raise ToolError("Codec.tla does not distinguish the header timeout from the body timeout (probe passed)")
+            # (M1v) the model tells a reader that decodes with its own protocol version (VersionSkew = 1000)
+            # from one that decodes with the version of the connection: Faithful must break on a version-1 transaction
+            rpv = vlib.tlc("mc/MC_Codec", "mc/MC_Codec_probe_version", workers=1, coverage=False, timeout=600)
+            if "Faithful" not in rpv.invariant_violated:
+                print(rpv.out[-3000:])
+                raise ToolError("Codec.tla does not notice a reader decoding with the wrong protocol version (probe passed)")
+            # (M2) Handshake.tla
+            rh = vlib.tlc("mc/MC_Handshake", "mc/MC_Handshake", workers=2, timeout=600)
+            if rh.invariant_violated:
+                print(rh.out[-3000:])
+                raise ToolError("Handshake.tla invariant %s violated inside the model" % rh.invariant_violated)
+            vlib.tlc_ok(rh, "MC_Handshake")
+            ach = rh.action_counts()
+            for a in HS_ACTIONS:
+                if ach.get(a, (0, 0))[1] == 0:
+                    raise ToolError("Handshake.tla action %s never taken" % a)
+            ring_fast, rrf = ring_case("fast")
+            bg["small"] = {"cov": rcov, "rp": rp, "rpv": rpv, "rh": rh, "ring_fast": ring_fast, "rrf": rrf}
+            th_r.join()
+            lap("small models and the long ring script done")
+        except BaseException as e:
+            bg["exc"] = e
+
+    def ring_bg(rfp, rfo):
         try:
             bg["stats"], bg["p"] = run_harness(["codec", "handshake", "--cases", rfp, "--out", rfo], "handshake ring")
         except BaseException as e:      # re-raised in the main thread
             bg["exc"] = e
-    th = threading.Thread(target=ring_bg)
+    th = threading.Thread(target=small_bg)
     th.start()
 
     # (M4) CodecConn.tla: the reader loop above the codec; (M5/A4) CodecHandover.tla: the byte stream
@@ -264,6 +351,7 @@ def run(tier, replay):
             pp = os.path.join(wd, "handover.ndjson"); po = os.path.join(wd, "handover_out.ndjson")
             vlib.write_ndjson(pp, plans)
             hst, _ = run_harness(["codec", "handover", "--cases", pp, "--out", po], "handover")
+            lap("conn / handover models and hand-over replay done")
             bg["models"] = {"conn": rc, "conn_probe": rcp, "handover": rh_, "handover_probe": rhp, "plans": plans,
                             "handover_stats": hst, "handover_out": vlib.read_ndjson(po) if hst is not None else []}
         except BaseException as e:
@@ -271,11 +359,71 @@ def run(tier, replay):
     th2 = threading.Thread(target=models_bg)
     th2.start()
 
+    # (M6/A5) CodecPeer.tla: a whole connection (Peer::accept / connect, conn::listen at info.version, the
+    # writer thread, Peer::send_*) against a raw peer of every protocol version; (M7/A6) Codec.tla on the
+    # two other networks (their magic, their block-size limits), replayed in a process of that chain type
+    def peer_nets_bg():
+        try:
+            rpe = vlib.tlc("mc/MC_CodecPeer", "mc/MC_CodecPeer", workers=2, timeout=600)
+            if rpe.invariant_violated:
+                print(rpe.out[-3000:])
+                raise ToolError("CodecPeer.tla invariant %s violated inside the model" % rpe.invariant_violated)
+            vlib.tlc_ok(rpe, "MC_CodecPeer")
+            for a_ in PEER_ACTIONS:
+                if rpe.action_counts().get(a_, (0, 0))[1] == 0:
+                    raise ToolError("CodecPeer.tla action %s never taken" % a_)
+            pr1 = vlib.tlc("mc/MC_CodecPeer", "mc/MC_CodecPeer_probe_local", workers=1, coverage=False, timeout=600)
+            if "NothingGarbled" not in pr1.invariant_violated:
+                print(pr1.out[-3000:])
+                raise ToolError("CodecPeer.tla does not notice a connection run at ProtocolVersion::local() (probe passed)")
+            pr2 = vlib.tlc("mc/MC_CodecPeer", "mc/MC_CodecPeer_probe_rewrite", workers=1, coverage=False, timeout=600)
+            if "GotFaithful" not in pr2.invariant_violated:
+                print(pr2.out[-3000:])
+                raise ToolError("CodecPeer.tla does not notice a writer thread that writes a message twice (probe passed)")
+            pcases = emit(("mc/MC_CodecPeer", "mc/MC_CodecPeer_emit"), "PEERCASE", "MC_CodecPeer emit")
+            if len(pcases) < 20:
+                raise ToolError("too few peer scenarios emitted (%d)" % len(pcases))
+            pst, pmm = peer_run(wd, pcases, "peer")
+            # anti-vacuity: a raw peer that decodes with a version of another wire form must be reported
+            psub = [c_ for c_ in pcases if c_["rv"] in (1, 1000) and c_["role"] == "accept"]
+            pst2, pmm2 = peer_run(wd, psub, "peer_selftest", corrupt=True)
+            if pst2 is None or len(pmm2) < len(psub):
+                # (the self-tests lean on the real codec honouring its version: when the code under test is
+                # what fails them the violations found are the verdict, see the end of run)
+                bg.setdefault("selftest_failed", []).append("peer sessions read with the wrong version were accepted (%d of %d reported)" % (len(pmm2), len(psub)))
+            nets = {}
+            for net, (chain, want) in sorted(NETS.items()):
+                nconsts = net_consts(chain, want)
+                if nconsts.get("magic_written") != nconsts.get("magic_model"):
+                    nets[net] = {"consts": nconsts, "magic_written_wrong": True}
+                    continue
+                rn = vlib.tlc("mc/MC_Codec", "mc/MC_Codec_net_" + net, workers=2, timeout=900)
+                if rn.invariant_violated:
+                    print(rn.out[-3000:])
+                    raise ToolError("Codec.tla invariant %s violated inside the model (network %s)" % (rn.invariant_violated, net))
+                vlib.tlc_ok(rn, "MC_Codec_net_" + net)
+                ncases = emit(("mc/MC_Codec", "mc/MC_Codec_net_%s_emit" % net), "CODECCASE", "MC_Codec net emit")
+                if len(ncases) < 15 or any(c_["net"] != net for c_ in ncases):
+                    raise ToolError("network %s: %d cases emitted" % (net, len(ncases)))
+                repn = Report(PID, tier, "model_checking")   # scratch; mismatches are reported below
+                nst, nmm = replay_codec(repn, wd, ncases, False, ["--chain", chain], "net_" + net)
+                nets[net] = {"consts": nconsts, "model": rn, "cases": ncases, "stats": nst, "mismatches": nmm, "aborted": bool(repn.violations)}
+            bg["peer"] = {"model": rpe, "probe_local": pr1, "probe_rewrite": pr2, "cases": pcases, "stats": pst, "mismatches": pmm,
+                          "selftest": len(pmm2)}
+            bg["nets"] = nets
+            lap("peer sessions and other networks done")
+        except BaseException as e:
+            bg["exc3"] = e
+    th3 = threading.Thread(target=peer_nets_bg)
+    th3.start()
+
     # (A1) streams + expectations from TLC, rendered and fragmented on loopback, read by the real Codec
     cases = emit(("mc/MC_Codec", "mc/MC_Codec_emit_thorough" if thorough else "mc/MC_Codec_emit"), "CODECCASE", "MC_Codec emit")
     if len(cases) < 100:
         raise ToolError("too few codec cases emitted (%d)" % len(cases))
+    lap("%d codec cases emitted" % len(cases))
     stats, mms = replay_codec(rep, wd, cases, thorough)
+    lap("codec replay done (%s socket runs)" % (stats or {}).get("runs"))
     by_sig = {}
     for m in mms:
         sig = codec_signature(m)
@@ -297,21 +445,76 @@ def run(tier, replay):
     st2, mm2 = replay_codec(rep2, wd, sub, False, ["--corrupt", "--plan", json.dumps({"cuts": [], "gaps_us": [], "sync": False, "version": 1000})], "selftest")
     if len(mm2) < len(sub):
         raise ToolError("self-test: corrupted observations were accepted (%d of %d reported)" % (len(mm2), len(sub)))
+    # anti-vacuity of the protocol-version quantifier: bodies serialised for version 1 or 2 and read by a
+    # codec of version 1000 must be reported (a reader that ignores the version of the connection)
+    vsub = [c for c in cases if len(c["frames"]) == 1 and c["frames"][0]["k"] == "built"
+            and ((c["version"] == 1 and c["frames"][0]["obj"]["kind"] in ("tx", "block", "cblock", "kseg"))
+                 or (c["version"] == 2 and c["frames"][0]["obj"]["kind"] in ("tx", "block")))]
+    if len(vsub) < 8:
+        raise ToolError("too few version-dependent single-frame streams emitted (%d)" % len(vsub))
+    st3, mm3 = replay_codec(rep2, wd, vsub, False, ["--plan", json.dumps({"cuts": [], "gaps_us": [], "sync": False, "version": 1000})], "selftest_version")
+    if len(mm3) < len(vsub):
+        bg.setdefault("selftest_failed", []).append("version-1/2 bodies read with a version-1000 codec were accepted (%d of %d reported)" % (len(mm3), len(vsub)))
 
     # (A2) handshake decision table against the real Handshake::accept / initiate
     hcases = emit(("mc/MC_Handshake", "mc/MC_Handshake_emit"), "HSCASE", "MC_Handshake emit")
+    th.join()
+    if "exc" in bg:
+        raise bg["exc"]
+    sm = bg["small"]
+    rp, rpv, rh, ring_fast, rrf = sm["rp"], sm["rpv"], sm["rh"], sm["ring_fast"], sm["rrf"]
+    ring_full, rrl, rfo = bg["ring_full"]
     hp = os.path.join(wd, "hs_cases.ndjson"); ho = os.path.join(wd, "hs_out.ndjson")
     vlib.write_ndjson(hp, hcases + [ring_fast])
     hstats, _ = run_harness(["codec", "handshake", "--cases", hp, "--out", ho], "handshake")
     if hstats is None or hstats["executed"] < 20:
         raise ToolError("handshake cases not executed")
-    th.join()
+    lap("handshake cases done")
     th2.join()
-    if "exc" in bg:
-        raise bg["exc"]
-    if "exc2" in bg:
-        raise bg["exc2"]
+    th3.join()
+    lap("background jobs joined (but the exhaustive model run)")
+    for k_ in ("exc0", "exc", "exc2", "exc3"):
+        if k_ in bg:
+            raise bg[k_]
     mo = bg["models"]
+    # a whole connection through a real Peer
+    pe = bg["peer"]
+    if pe["stats"] is None:
+        rep.violation("peer:harness_abort", {"kind": "abort"}, "the harness died while a real Peer was talking to a raw peer")
+    elif pe["stats"]["executed"] < len(pe["cases"]):
+        raise ToolError("peer scenarios not executed (%s of %d)" % (pe["stats"]["executed"], len(pe["cases"])))
+    seen_pe = set()
+    for m in pe["mismatches"]:
+        if m["what"] == "io":
+            raise ToolError("peer scenario failed for a reason of the machine: %s" % m["detail"])
+        sig = peer_signature(m)
+        if sig in seen_pe:
+            continue
+        seen_pe.add(sig)
+        c = m["case"]
+        rep.violation(sig, {"kind": "peer", "case": c, "mismatch": {k_: v_ for k_, v_ in m.items() if k_ != "case"}},
+                      "Peer::%s with a raw peer of protocol version %s (negotiated %s), operations %s: %s; the adapter got %s, the raw peer read types %s" % (
+                          c["role"], c["rv"], c["nv"], json.dumps(c["ops"]), m["detail"], m.get("handed"), m.get("got")))
+    # the other networks
+    for net, nr in sorted(bg["nets"].items()):
+        chain = NETS[net][0]
+        if nr.get("magic_written_wrong"):
+            rep.violation("codec:magic_written:%s" % net, {"kind": "consts", "consts": nr["consts"]},
+                          "on %s write_message starts a frame with %s, the magic of that network is %s" % (chain, nr["consts"].get("magic_written"), nr["consts"].get("magic_model")))
+            continue
+        if nr["aborted"]:
+            rep.violation("codec:harness_abort:%s" % net, {"kind": "abort"}, "the harness died while the real codec was reading as a %s node" % chain)
+        by_n = {}
+        for m in nr["mismatches"]:
+            sg = codec_signature(m)
+            if not sg.startswith("codec:trailing_bytes_accepted") and not sg.startswith("codec:short_body_accepted"):
+                sg += ":net=" + net
+            by_n.setdefault(sg, []).append(m)
+        for sg, ms in sorted(by_n.items()):
+            m = ms[0]
+            rep.violation(sg, {"kind": "codec", "case": nr["cases"][m["case"]], "plan": m["plan"], "mismatch": m, "chain": chain},
+                          "as a %s node: %s (%s) frame %s of case %d, plan %s/%s: %s [%d runs]" % (
+                              chain, m["what"], m.get("class", ""), m.get("label", ""), m["case"], m["plan"].get("kind"), m["plan"].get("cuts"), m["detail"], len(ms)))
     if mo["handover_stats"] is None:
         rep.violation("handshake:handover:harness_abort", {"kind": "abort"}, "the harness died while the codec was reading behind a handshake")
     elif mo["handover_stats"]["executed"] + mo["handover_stats"].get("not_realisable", 0) < len(mo["plans"]):
@@ -346,12 +549,24 @@ def run(tier, replay):
 
     # (B) what conn::listen hands to a MessageHandler for random message sequences
     bstats = direction_b(rep, wd, thorough, cases)
+    lap("direction B done (%s sequences)" % bstats.get("sequences"))
+    th0.join()
+    if "exc0" in bg:
+        raise bg["exc0"]
+    r = bg["m1"]
+    ac = sm["cov"].action_counts()
+    states, trans = r.distinct, r.generated
 
+    if bg.get("selftest_failed") and not rep.violations:
+        raise ToolError("self-test: " + "; ".join(bg["selftest_failed"]))
     n_refusal = sum(1 for c in cases if c["expect"] and c["expect"][-1]["r"] == "err")
     rep.coverage = {
-        "states": states + rh.distinct + rrf.distinct + rrl.distinct + mo["conn"].distinct + mo["handover"].distinct,
-        "transitions": trans + rh.generated + rrf.generated + rrl.generated + mo["conn"].generated + mo["handover"].generated,
-        "traces_validated_against_impl": (stats.get("runs", 0) if stats else 0) + hstats["executed"] + 1 + bstats.get("sequences", 0) + (mo["handover_stats"] or {}).get("executed", 0),
+        "states": states + rh.distinct + rrf.distinct + rrl.distinct + mo["conn"].distinct + mo["handover"].distinct + pe["model"].distinct
+                  + sum(nr["model"].distinct for nr in bg["nets"].values() if "model" in nr),
+        "transitions": trans + rh.generated + rrf.generated + rrl.generated + mo["conn"].generated + mo["handover"].generated + pe["model"].generated
+                       + sum(nr["model"].generated for nr in bg["nets"].values() if "model" in nr),
+        "traces_validated_against_impl": (stats.get("runs", 0) if stats else 0) + hstats["executed"] + 1 + bstats.get("sequences", 0) + (mo["handover_stats"] or {}).get("executed", 0)
+                                         + (pe["stats"] or {}).get("executed", 0) + sum((nr.get("stats") or {}).get("runs", 0) for nr in bg["nets"].values()),
         "samples": [
             {"frames": [f["k"] + ":t%d:len%d" % (f["t"], f["len"]) for f in cases[len(cases) // 3]["frames"]],
              "expect": cases[len(cases) // 3]["expect"]},
@@ -360,9 +575,26 @@ def run(tier, replay):
         ],
         "exhaustive": True,
         "model": {"codec_config": cfg, "codec_states": states, "codec_depth": r.depth, "handshake_states": rh.distinct,
-                  "codec_action_counts": {a: ac[a][1] for a in CODEC_ACTIONS},
+                  "codec_action_counts_on_subset": {a: ac[a][1] for a in CODEC_ACTIONS},
+                  "coverage_subset": {"cfg": "mc/MC_Codec_cov", "states": sm["cov"].distinct},
                   },
         "streams_replayed": len(cases), "streams_ending_in_refusal": n_refusal,
+        "streams_with_version_dependent_bodies": sum(1 for c in cases if c["version"] > 0),
+        "built_frames_by_type_and_version": sorted({"t%d@v%d" % (f["t"], f["ver"]) for c in cases for f in c["frames"] if f["k"] == "built"}),
+        "header_lists_with_mixed_header_sizes": sum(1 for c in cases if any(len(f.get("mix", [])) > 1 for f in c["frames"])),
+        "largest_header_list": max([f["items"] for c in cases for f in c["frames"] if f["k"] == "headers"] or [0]),
+        "announced_lengths_beyond_2^31": sorted({f["wlen"] for c in cases for f in c["frames"] if f.get("wlen")}),
+        "bad_magic_variants": sorted({f["mv"] for c in cases for f in c["frames"] if not f["magic"]}),
+        "selftest_wrong_version_reads_rejected": len(mm3),
+        "model_probe_reader_version": {"cfg": "mc/MC_Codec_probe_version", "violated": rpv.invariant_violated},
+        "peer_model": {"states": pe["model"].distinct, "probe_local_violated": pe["probe_local"].invariant_violated,
+                       "probe_rewrite_violated": pe["probe_rewrite"].invariant_violated,
+                       "action_counts": {a: pe["model"].action_counts()[a][1] for a in PEER_ACTIONS}},
+        "peer_sessions_replayed": (pe["stats"] or {}).get("executed", 0),
+        "peer_messages_exchanged": (pe["stats"] or {}).get("messages_exchanged", 0),
+        "peer_selftest_sessions_rejected": pe["selftest"],
+        "other_networks": {net: {"states": nr["model"].distinct if "model" in nr else 0, "streams": len(nr.get("cases", [])),
+                                 "socket_runs": (nr.get("stats") or {}).get("runs", 0), "consts": nr["consts"]} for net, nr in bg["nets"].items()},
         "socket_runs": stats.get("runs") if stats else 0,
         "single_split_runs": stats.get("single_split_runs") if stats else 0,
         "multi_split_runs": stats.get("multi_split_runs") if stats else 0,
@@ -388,19 +620,20 @@ def run(tier, replay):
         "selftest_corruptions_rejected": len(mm2),
         "direction_b": bstats,
         "wire_constants": consts,
-        "checker_cmd": "tlc mc/MC_Codec; tlc mc/MC_Codec_probe_hoist; tlc mc/MC_Handshake; tlc mc/MC_HandshakeRing_fast|full; tlc mc/MC_CodecConn(+probe_skip); tlc mc/MC_CodecHandover(+probe_buffered); tlc trace/CodecTrace; h_codec replay|handshake|handover|record",
+        "checker_cmd": "tlc mc/MC_Codec(+probe_hoist, probe_version, net_main, net_test); tlc mc/MC_Handshake; tlc mc/MC_HandshakeRing_fast|full; tlc mc/MC_CodecConn(+probe_skip); tlc mc/MC_CodecHandover(+probe_buffered); tlc mc/MC_CodecPeer(+probe_local, probe_rewrite); tlc trace/CodecTrace; h_codec replay [--chain]|handshake|handover|peer|record",
     }
     rep.assumptions = [
-        "chain type AutomatedTesting (max_block_size 7788, header 257 bytes, PoW 8-cycles on 2^10 edges); other chain types only change the constants",
+        "chain type AutomatedTesting (max_block_size 7788, headers of 257/258/259 bytes = PoW 8-cycles on 2^10..2^12 edges) for everything but a small set of streams replayed as a Mainnet and as a Testnet node (magic, block-size limits; no block headers there: their proof of work cannot be produced)",
         "every fragment gap stays inside the I/O timeouts as the property states (Codec.tla SilenceOK): pauses longer than HEADER_IO_TIMEOUT (2 s; 2.3-2.6 s in the socket runs) occur between frames and after the 11 header bytes of a frame (body, header items, attachment chunks), never inside the 11 header bytes; pauses near BODY_IO_TIMEOUT (60 s) are in the model only",
         "connection level: the reader loop is the real conn::listen with a recording MessageHandler; 'refused' means nothing behind the frame reaches the handler and the reader shuts the socket down while the peer's side is still open (waited for up to 5 s); the Peer / ban logic above it is not exercised",
         "hand-over: the handshake message and the frames behind it are written by a raw peer in one write (or cut as planned) on loopback, where one write of < 1 KiB arrives as one segment; the plans cover Shake (initiate) and Hand (accept)",
         "nonce ring: the scripts exceed NONCES_CAP by a few initiations on one Handshake object; broken dials are realised by a socket whose write side is shut down (the Hand cannot be written), concurrent dials are not exercised",
         "fragmentation is forced by waiting until the reader drained the socket (FIONREAD) before the next write; the kernel may still coalesce fragments of the unsynchronised random plans",
-        "the real side of every handshake case has PROTOCOL_VERSION 1000 (the constant of the build); the other model cases are checked in TLC only",
-        "bodies of Block/CompactBlock/Transaction/segment-response types are exercised at the framing level only (limits, refusal), not with decodable contents",
-        "announced lengths above 2^30 are not in the model (TLC integers); allocations are observed per request through the harness allocator (cap 256 MiB)",
-        "a decodable body followed by bytes its items do not account for is refused by the model (the statement's 'item counts inconsistent with its length'); exercised for the types with hand-rendered bodies (3-8, 10, 12, 16-21, 23, 25, 27 and Hand/Shake), not for Block/CompactBlock/Transaction/segment responses",
+        "the real side of every handshake case and of every peer session has PROTOCOL_VERSION 1000 (the constant of the build); lower negotiated versions come from the remote side (1, 2, 3; 2000 for a newer peer); the other model cases are checked in TLC only",
+        "Block/CompactBlock/(Stem)Transaction/KernelSegment/RangeProofSegment/OutputSegment/OutputBitmapSegment bodies are real objects (one composition each, built with libtx / Block::new / CompactBlock::from / Segment::from_parts) serialised by Msg::new at versions 1, 2, 3, 1000; their sizes per version are computed by Codec.tla (ObjSize) and must equal what the writer produced; OutputBitmapSegment (type 22) likewise with one sparse block (the positions encoding)",
+        "announced lengths above 2^30 are represented in the model by 2^30 (the machine only compares the length with limits below 2^30) and carried to the wire as decimal strings (2^31, 2^32, 2^32+16, 2^63-1, 2^63, 2^64-1); allocations are observed per request through the harness allocator (cap 256 MiB)",
+        "a decodable body followed by bytes its items do not account for is refused by the model (the statement's 'item counts inconsistent with its length'); exercised for the types with hand-rendered bodies (3-8, 10, 12, 16-21, 23, 25, 27 and Hand/Shake), not for Block/CompactBlock/Transaction/segment responses; for these types a frame of exactly the limit is of that kind, so their limits are pinned from above (limit + 1) and by the longest honest message (256 IPv6 peer addresses, 512 headers, 20 locator hashes), not at the limit itself",
+        "peer sessions: the remote side is a raw peer (hand-written Hand / Shake, frames serialised with Msg::new at the negotiated version, the real Codec as its reader); the node side is the real Peer::accept / Peer::connect with a recording NetAdapter; inbound and outbound transactions are different calls (TrackingAdapter suppresses what a peer already sent); the interleaving of answers and own messages on the send channel is left free; write stalls beyond BODY_IO_TIMEOUT (the retry of a half-written message) are outside the property's quantifier",
     ]
     return rep.finish()
 
@@ -442,6 +675,10 @@ def conn_verdict(tp, out):
         sig = "conn:refused_frame:%s:%s" % (what, kind)
     else:
         sig = "conn:listen:%s" % what
+    if e.get("k") == "Deliver" and e.get("r") == "msg" and any(
+            f["t"] == e.get("t") and f["k"] == "raw" and f["magic"] and f["need"] > f["len"] for f in rs["frames"]):
+        # the same observation as in the codec replay: a body shorter than the message's content was delivered
+        sig = "codec:short_body_accepted:%s" % TYPE_NAMES.get(e.get("t"), "t%s" % e.get("t"))
     frames = ["%s:t%d:len%d:body%d%s" % (f["k"], f["t"], f["len"], f["body"], "" if f["magic"] else ":badmagic") for f in rs["frames"]]
     text = "conn::listen on frames %s (refusal: %s): event %d %s not allowed by CodecConn.tla; recorded %s" % (
         frames, kinds, d - j, json.dumps(e), json.dumps([x for x in seq[1:]])[:300])
@@ -478,7 +715,10 @@ def direction_b(rep, wd, thorough, cases):
     for i, c in enumerate(cases):
         # (streams with a body longer than its items need are judged per message type by the codec
         # replay only: codec:trailing_bytes_accepted:<type>)
-        if c["total"] <= 70000 and "trailing" not in c["classes"]:
+        # (so is a BanReason body shorter than its content - codec:short_body_accepted:BanReason -: the trace
+        # validation stops at the first event it rejects and would not look at the sequences behind it)
+        if c["total"] <= 70000 and "trailing" not in c["classes"] and not any(
+                f["t"] == 18 and f["k"] == "raw" and f["need"] > f["len"] for f in c["frames"]):
             c2 = dict(c); c2["case_id"] = i
             sel.append(c2)
     mid = [c for c in sel if any(c["kinds"][:-1])]
@@ -493,7 +733,7 @@ def direction_b(rep, wd, thorough, cases):
     # (b) random sequences, refused frames at the end, honest streams
     sb, vb = conn_run(wd, "mix", 60 if thorough else 16, last + honest)
     for v in (va, vb):
-        if v and not (va and v is vb and v[0] == va[0]):
+        if v and not (va and v is vb and v[0] == va[0]) and v[0] not in [x[0] for x in rep.violations]:
             rep.violation(*v)
     return {"built": True, "sequences": sa.get("sequences", 0) + sb.get("sequences", 0),
             "refused_in_the_middle_sequences": sa.get("sequences", 0),
